@@ -51,6 +51,20 @@ SCAN_RECEIVER_OK = {"core::str::<impl str>::char_indices", "core::str::<impl str
                     "core::iter::traits::iterator::Iterator::copied", "core::iter::traits::iterator::Iterator::cloned"}
 
 
+def with_scan_helpers(prog, body):
+    """`body`, or — when the character scan was given a name (`fn first_invalid_char(s: &str) -> Option<(usize, char)>`) — `body`
+    with the private helpers of its module that contain a scan spliced in (A12): the scan, its outcome and what follows are then
+    read in one body."""
+    def has_scan(b):
+        return any(n in SCANS for _, t in b.calls() for n in callee_names(t))
+    if has_scan(body):
+        return body
+    from .inline import inlined, module_private_helpers
+    base = module_private_helpers(body)
+    nb = inlined(prog, body, lambda cb: base(cb) and has_scan(cb), depth=1)
+    return nb if nb.raw.get("inlined") else body
+
+
 def scan_of(prog, body, param=1):
     """The single character scan in a validator: returns dict(found_edge, notfound_edge, bad set,
     width, receiver_ok, scan_bb) or raises Opaque."""
@@ -84,6 +98,25 @@ def scan_of(prog, body, param=1):
         raise charset.Opaque("expected exactly one character scan (find/position/any/all with a closure, or one `for` loop over the characters), found %d" % len(scans))
     bb, t, clos, kind = scans[0]
     sw = body.blocks[t["target"]]["t"]
+    if sw["k"] != "switch":
+        # the result may be handed back by a spliced helper first (plain moves through its return): follow it to its test
+        cur, nb2 = t["dest"]["l"], t["target"]
+        for _ in range(8):
+            blk2 = body.blocks[nb2]
+            dl = None
+            for st in blk2["s"]:
+                if st["k"] == "assign" and not st["place"]["p"] and st["rv"]["k"] == "use" and op_local(st["rv"]["op"]) == cur \
+                        and not (st["rv"]["op"].get("copy") or st["rv"]["op"].get("move"))["p"]:
+                    cur = st["place"]["l"]
+                elif st["k"] == "assign" and st["rv"]["k"] == "discr" and st["rv"]["place"]["l"] == cur and not st["rv"]["place"]["p"]:
+                    dl = st["place"]["l"]
+            t2 = blk2["t"]
+            if t2["k"] == "switch" and (op_local(t2["discr"]) == dl or (kind != "found=Some" and op_local(t2["discr"]) == cur)):
+                sw = t2
+                break
+            if t2["k"] != "goto":
+                break
+            nb2 = t2["target"]
     if sw["k"] != "switch":
         raise charset.Opaque("the scan result is not tested directly")
     if kind == "found=Some":
